@@ -26,8 +26,9 @@ Definition rmsg_eqb (a b : rmsg) : bool :=
 Definition saved_eqb (a b : saved_rec) : bool :=
   opt_eqb (fun x y => opt_eqb (list_eqb Z.eqb) (fst x) (fst y) && list_eqb Z.eqb (snd x) (snd y)) a b.
 
-Definition out_eqb (a b : out) : bool :=
+Fixpoint out_eqb (a b : out) : bool :=
   match a, b with
+  | OSaveFailed x, OSaveFailed y => out_eqb x y
   | OEvent n1 m1 w1 s1, OEvent n2 m2 w2 s2 => Z.eqb n1 n2 && msg_eqb m1 m2 && who_eqb w1 w2 && Bool.eqb s1 s2
   | OLaunch sv1 t1 c1 s1, OLaunch sv2 t2 c2 s2 =>
       saved_eqb sv1 sv2 && list_eqb rmsg_eqb t1 t2 && list_eqb Z.eqb c1 c2 && list_eqb Z.eqb s1 s2
